@@ -116,7 +116,9 @@ def run_config(pa, cfg, executor_factory, record=True):
     try:
         with Draws() as dr:
             # mark the position of every draw in the executor's event list
+            gt = cfg.get("ground_truth")
             res = cont.compute_gamma(dissim, n_samples=cfg["n_samples"], precision_level=cfg["precision"], sampler=sampler,
+                                     ground_truth_annotators=None if gt is None else list(gt),
                                      fast=(cfg["mode"] == "fast"), soft=(cfg["mode"] == "soft"))
             vals = [float(res.observed_disorder)] + [float(a.disorder) for a in res.chance_alignments] + [float(res.gamma)]
             if tuple(cfg["dissim"])[0] == "comb":
@@ -169,7 +171,13 @@ def run(rep, tier, seed, pa):
             continue
         cfgs.append({"units": units, "dissim": list(rng.choice([("pos", 1.0), ("comb", 1.0, 1.0, 1.0, "abs", "abc", "asis"), ("comb", 0.5, 3.0, 0.5, "abs", "abc", "asis")])),
                      "mode": rng.choice(["exact", "exact", "fast", "soft"]), "sampler": rng.choice(["stat", "int_pivot", "float_pivot"]),
-                     "n_samples": rng.choice([3, 4, 6]), "precision": rng.choice([None, None, 0.5]), "numpy_seed": rng.randrange(2 ** 31)})
+                     "n_samples": rng.choice([3, 4, 6]), "precision": rng.choice([None, None, 0.5]), "numpy_seed": rng.randrange(2 ** 31),
+                     "ground_truth": (sorted(rng.sample(gen.ANNOTATORS[:n], rng.randrange(2, n + 1)), reverse=True) if n >= 3 and rng.random() < 0.6 else None)})
+    # the configurations compared across processes come first: one with a ground-truth subset and the shuffle sampler, one plain
+    with_gt = [c for c in cfgs if c["ground_truth"] and c["sampler"] != "stat"] or [c for c in cfgs if c["ground_truth"]]
+    if with_gt:
+        cfgs.remove(with_gt[0])
+        cfgs.insert(0, with_gt[0])
     children = []
     for ci, cfg in enumerate(cfgs):
         schedules = [("fifo-now", lambda: ForcedExecutor("fifo-now")), ("fifo", lambda: ForcedExecutor("fifo")), ("lifo", lambda: ForcedExecutor("lifo")),
@@ -205,12 +213,12 @@ def run(rep, tier, seed, pa):
                      nontrivial_key=(json.dumps(cfg, sort_keys=True), name) if nchance >= 3 and g < 1 else None)
             for key, what in bad:
                 rep.violation(key, dict(cfg, schedule=name), what)
-        if ref is not None and ci < (1 if tier == "quick" else 6):
+        if ref is not None and ci < (2 if tier == "quick" else 8):
             children.append((cfg, ref[1]))
     # subprocesses with other hash seeds
     procs = []
     for cfg, refvals in children:
-        for hs in ("1", "2", "random"):
+        for hs in (("1", "2", "3", "random") if tier == "quick" else ("1", "2", "3", "4", "5", "random")):
             env = dict(os.environ, PYTHONHASHSEED=hs)
             p = subprocess.Popen(["/venv/bin/python", os.path.abspath(__file__), "--child", json.dumps(cfg)], stdout=subprocess.PIPE, stderr=subprocess.DEVNULL,
                                  text=True, env=env, cwd=VERIF)
@@ -227,7 +235,7 @@ def run(rep, tier, seed, pa):
 
 
 def replay(rep, data, pa):
-    cfg = {k: data[k] for k in ("units", "dissim", "mode", "sampler", "n_samples", "precision", "numpy_seed")}
+    cfg = {k: data.get(k) for k in ("units", "dissim", "mode", "sampler", "n_samples", "precision", "numpy_seed", "ground_truth")}
     cfg["units"] = [[tuple(u) for u in us] for us in cfg["units"]]
     a = run_config(pa, cfg, lambda: ForcedExecutor("fifo"))[0]
     b = run_config(pa, cfg, lambda: ForcedExecutor("lifo"))[0]
